@@ -34,6 +34,36 @@ def gen_src_envelope():
     return p.returncode, p.stdout
 
 
+def gen_src_codec():
+    """C01 / C02: regenerate lean/RSVerif/Gen/SrcCodec.lean from the codec bodies of rate_high.rs / rate_low.rs"""
+    out = os.path.join(VERIF, "lean", "RSVerif", "Gen", "SrcCodec.lean")
+    p = subprocess.run([sys.executable, os.path.join(VERIF, "translate", "rs2lean_codec.py"), "/repo", out],
+                       stdout=subprocess.PIPE, stderr=subprocess.STDOUT, text=True)
+    return p.returncode, p.stdout
+
+
+TECH_TRC = ("Lean 4 machine-checked proof; the codec bodies (HighRate/LowRate encode and decode: chunk loops, usize arithmetic, skew "
+            "offsets, erasure marking, multiply / reveal loops) are TRANSLATED from the current Rust source on every run "
+            "(translate/rs2lean_codec.py -> Gen/SrcCodec.lean: operation programs) and proved equal to the model's encoders / decoders; "
+            "the algebra (field, FFT, Cauchy form, round trip) on a hand-written model + differential correspondence with the crate")
+
+
+def gen_statics():
+    """C05 / C16: regenerate lean/RSVerif/Gen/Statics.lean (global state declared in today's source)"""
+    out = os.path.join(VERIF, "lean", "RSVerif", "Gen", "Statics.lean")
+    p = subprocess.run([sys.executable, os.path.join(VERIF, "translate", "statics.py"), "/repo", out],
+                       stdout=subprocess.PIPE, stderr=subprocess.STDOUT, text=True)
+    return p.returncode, p.stdout
+
+
+def gen_c16():
+    rc, out = gen_lazy_deps()
+    if rc != 0:
+        return rc, out
+    rc2, out2 = gen_statics()
+    return rc2, out + out2
+
+
 def gen_src_work():
     """C06 / C07 / C12 / C17: regenerate lean/RSVerif/Gen/SrcWork.lean from encoder_work.rs / decoder_work.rs / lib.rs"""
     out = os.path.join(VERIF, "lean", "RSVerif", "Gen", "SrcWork.lean")
@@ -78,6 +108,7 @@ PROPS = {
         "generated round trips incl. all subsets of all small configurations + direct round-trip oracle on the implementation up to "
         "full-size configurations.",
         "cases = encode/decode op sequences; distinct = distinct op-sequence text; non-trivial = a decode of >= k shards with a missing original or surplus",
+        pre_lean=gen_src_codec, technique=TECH_TRC,
         design_ref="DESIGN.md §6 C01",
     ),
     "C02": P(
@@ -87,6 +118,7 @@ PROPS = {
         "by unit vectors; pure function of (k, r, rate, data). Direct oracle: implementation bytes == closed form evaluated by rsmodel from the two "
         "published constants (no FFT, no tables) == reed-solomon-16 0.1.0 for 64-multiple sizes; constants == pinned literals.",
         "cases = encode op sequences x closed-form queries; distinct = distinct (configuration, data); non-trivial = every case (recovery bytes compared)",
+        pre_lean=gen_src_codec, technique=TECH_TRC, extra_targets=["srccodec"],
         design_ref="DESIGN.md §6 C02",
     ),
     "C03": P(
@@ -112,6 +144,7 @@ PROPS = {
         "contents of the working memory and any recycled work space (forall stale stale'); data path reads only inserted/zero-filled positions. "
         "Direct oracle: reused object under the poison hook vs fresh object, round by round.",
         "cases = histories (2-8 rounds, resets across counts/sizes/rates, renew through into_parts, failed calls); each round compared with a fresh object",
+        pre_lean=gen_statics,
         design_ref="DESIGN.md §6 C05",
     ),
     "C06": P(
@@ -217,7 +250,7 @@ PROPS = {
         "done exactly once. Partial for the runtime: the OS scheduler, the memory model and std::sync::LazyLock are trusted; schedule sampling in "
         "fresh processes (racing first touch, objects moved between threads mid-round) is supporting evidence.",
         "cases = fresh processes with barrier-released threads of different first-touch sets + moved objects, compared with sequential recomputation",
-        pre_lean=gen_lazy_deps,
+        pre_lean=gen_c16,
         design_ref="DESIGN.md §6 C16",
     ),
     "C17": P(
